@@ -1,0 +1,92 @@
+//go:build verif
+
+package stateless
+
+import (
+	"context"
+
+	cmttypes "github.com/cometbft/cometbft/types"
+
+	"github.com/oasisprotocol/oasis-core/go/common/crypto/hash"
+	consensusAPI "github.com/oasisprotocol/oasis-core/go/consensus/api"
+	"github.com/oasisprotocol/oasis-core/go/consensus/api/transaction"
+	"github.com/oasisprotocol/oasis-core/go/consensus/cometbft/api"
+)
+
+// This file exposes the package-private verification functions of the
+// stateless consensus backend to the external verification harness. It is
+// only compiled with the verif build tag, adds no behaviour and changes no
+// existing declaration.
+
+// VerifVerifyBlock is verifyBlock.
+func VerifVerifyBlock(blk *consensusAPI.Block, lb *cmttypes.LightBlock) error {
+	return verifyBlock(blk, lb)
+}
+
+// VerifVerifyTransactions is verifyTransactions.
+func VerifVerifyTransactions(txs [][]byte, lb *cmttypes.LightBlock) error {
+	return verifyTransactions(txs, lb)
+}
+
+// VerifVerifyBlockResults is the package-level verifyBlockResults.
+func VerifVerifyBlockResults(results *consensusAPI.BlockResults, resultsHash []byte, lb *cmttypes.LightBlock) (*api.BlockResultsMeta, error) {
+	return verifyBlockResults(results, resultsHash, lb)
+}
+
+// VerifVerifyTransactionProof is verifyTransactionProof.
+func VerifVerifyTransactionProof(proof *transaction.Proof, tx *transaction.SignedTransaction, lb *cmttypes.LightBlock) error {
+	return verifyTransactionProof(proof, tx, lb)
+}
+
+// VerifTransactionsWithProofs is transactionsWithProofs.
+func VerifTransactionsWithProofs(txs [][]byte) *consensusAPI.TransactionsWithProofs {
+	return transactionsWithProofs(txs)
+}
+
+// VerifStateRootFromMetaTx is stateRootFromMetaTx.
+func VerifStateRootFromMetaTx(metaTx []byte) (hash.Hash, error) {
+	return stateRootFromMetaTx(metaTx)
+}
+
+// VerifStateRootFromBlockTxs is stateRootFromBlockTxs.
+func VerifStateRootFromBlockTxs(txs [][]byte) (hash.Hash, error) {
+	return stateRootFromBlockTxs(txs)
+}
+
+// VerifVerifyBlockResults is (*Core).verifyBlockResults.
+func (c *Core) VerifVerifyBlockResults(ctx context.Context, results *consensusAPI.BlockResults, lb *cmttypes.LightBlock) (*api.BlockResultsMeta, error) {
+	return c.verifyBlockResults(ctx, results, lb)
+}
+
+// VerifVerifyParameters is (*Core).verifyParameters.
+func (c *Core) VerifVerifyParameters(ctx context.Context, params *consensusAPI.Parameters, lb *cmttypes.LightBlock) error {
+	return c.verifyParameters(ctx, params, lb)
+}
+
+// VerifVerifyNextValidators is (*Core).verifyNextValidators.
+func (c *Core) VerifVerifyNextValidators(validators *consensusAPI.Validators, lb *cmttypes.LightBlock) error {
+	return c.verifyNextValidators(validators, lb)
+}
+
+// VerifResultsHash is (*Core).resultsHash (cached last results hash lookup).
+func (c *Core) VerifResultsHash(ctx context.Context, height int64) ([]byte, error) {
+	return c.resultsHash(ctx, height)
+}
+
+// VerifCachedStateRoot peeks into the state root cache without touching it.
+func (c *Core) VerifCachedStateRoot(height int64) (hash.Hash, bool) {
+	v, ok := c.stateRootCache.Peek(height)
+	if !ok {
+		return hash.Hash{}, false
+	}
+	return v.(hash.Hash), true
+}
+
+// VerifCachedResultsHash peeks into the results hash cache without touching it.
+func (c *Core) VerifCachedResultsHash(height int64) ([]byte, bool) {
+	v, ok := c.resultsHashCache.Peek(height)
+	if !ok {
+		return nil, false
+	}
+	return v.([]byte), true
+}
